@@ -15,6 +15,11 @@ def main():
         from harness import setup
         sys.exit(setup.main())
     mod = importlib.import_module("harness.%s" % a.prop.lower())
+    # two runs of the same property share build/<prop> (case files, replays): serialise them
+    import fcntl
+    from . import lib as _lib
+    _lock = open(os.path.join(_lib.mkdir(os.path.join(_lib.BUILD, a.prop)), ".run.lock"), "w")
+    fcntl.flock(_lock, fcntl.LOCK_EX)
     try:
         rc = mod.replay(a.replay) if a.replay else mod.run(a.tier)
     except SystemExit:
